@@ -80,6 +80,9 @@ type VC struct {
 	cfg       *cfgInfo
 	compMeta  map[string]compMetaT
 	closures  map[Term]closureInfo
+	anchorsHit map[int]bool
+	callOrd    map[ssa.Instruction]int
+	callByName map[string]ssa.Instruction
 }
 
 type deferredCall struct {
